@@ -30,7 +30,8 @@ TECHNIQUE = "reflection over all expression classes plus exhaustive enumeration 
 RULE = (
     "classes = all concrete subclasses of Validatable/Cacheable/Explainable in labrea.* (by reflection); terms = "
     "contexts^d x leaves (d<=1 quick full, d=2 on a core set; thorough d=2 full) x dictionaries x {evaluate cold, "
-    "evaluate warm, validate, keys, explain}; request types Evaluate, Validate, Keys, Explain, CacheExists, CacheGet, "
+    "evaluate warm, validate, keys, explain, evaluate inside cache.disabled() / logging.disabled() / a nested "
+    "mapping-form handle} (+ LABREA.LOGGING.DISABLED variants); request types Evaluate, Validate, Keys, Explain, CacheExists, CacheGet, "
     "CacheSet, Log, TypeValidation; substitution: target dataset in the hole of every context (depth 1 and 2) x "
     "dictionaries.  Non-trivial = (term, o, operation) in which at least 3 nested requests were observed."
 )
